@@ -85,8 +85,10 @@ func engineImpl(c *core.Ctx, rel string) *types.Named {
 
 func mainClause(refs []core.ClauseRef) *core.ClauseRef {
 	var best *core.ClauseRef
+	// the lowering dispatcher is the largest function that has such a clause (signature tables are much smaller)
+	size := func(r *core.ClauseRef) int { return int(r.Fn.End() - r.Fn.Pos()) }
 	for i := range refs {
-		if best == nil || len(refs[i].Switch.Body.List) > len(best.Switch.Body.List) {
+		if best == nil || size(&refs[i]) > size(best) || (size(&refs[i]) == size(best) && len(refs[i].Switch.Body.List) > len(best.Switch.Body.List)) {
 			best = &refs[i]
 		}
 	}
